@@ -331,8 +331,33 @@ def gen(rng, tier, idx):
     return zbox.sprinkle(rng, gen_mem(rng, tier, idx), 0.15)
 
 
+def gen_huge(rng, tier, fam):
+    """a posting more than 1000 times larger than another one (2100-2600 documents carry the keyword H, one to
+    three carry R, at least one of them without H): size-ratio-gated paths in the 'and' search, and read-only
+    queries that must leave the small posting as it was (seeded C02_I filtered the live small posting in place)"""
+    H, R, X = 0, 1, 2
+    n = rng.randrange(2100, 2600)
+    ids = list(range(10, 10 + n))
+    cmds = [["index", d, H] + ([X] if rng.random() < 0.02 else []) for d in ids]
+    rare = [5000 + i for i in range(rng.choice([1, 2, 3]))]
+    for j, d in enumerate(rare):
+        cmds.append(["index", d, R] + ([H] if j > 0 and rng.random() < 0.6 else []))
+    if rng.random() < 0.5:
+        cmds.append(["index", ids[0], H, R])
+    for _ in range(2):
+        for q in (["all", R, H], ["all", H, R], ["notall", R, H], ["eq", R], ["any", R, X], ["all", R, X, H],
+                  ["eq", H], ["noteq", R], ["all", R]):
+            cmds.append([rng.choice(["q", "qx"])] + q)
+        cmds.append(["unindex", rng.choice(ids)])
+    return cmds
+
+
 def gen_mem(rng, tier, idx):
     fam = rng.choice([32, 64])
+    if idx % 1000003 == 3 or (tier == "thorough" and idx % 1000003 % 97 == 3):
+        return {"session": "keyword", "cfg": [["cfg", "family", fam], ["cfg", "vtype", "str"], ["cfg", "disc", "attr"],
+                                              ["cfg", "opt", rng.randrange(2)], ["cfg", "mode", "huge-ratio"]],
+                "cmds": gen_huge(rng, tier, fam)}
     vtype = rng.choice(VTYPES)
     cfg = [["cfg", "family", fam], ["cfg", "vtype", vtype],
            ["cfg", "disc", rng.choice(["attr", "callable"])], ["cfg", "opt", rng.randrange(2)]]
